@@ -685,6 +685,15 @@ func (e *Env) call(n *ECall) (tv, error) {
 			r = fmt.Sprintf("(sarr %s)", r)
 		}
 		return tv{t: fmt.Sprintf("(>= (rb %s) %s)", r, fr), ty: stBool}, nil
+	case "concat":
+		as, err := args()
+		if err != nil {
+			return tv{}, err
+		}
+		if len(as) != 2 {
+			return tv{}, fmt.Errorf("concat takes two strings")
+		}
+		return tv{t: fmt.Sprintf("(strcat %s %s)", as[0].t, as[1].t), ty: as[0].ty}, nil
 	case "sameobj":
 		// sameobj(a, b): the two pointers / slices point into the same allocated object
 		as, err := args()
